@@ -639,6 +639,20 @@ pub fn run_check(def: &CheckDef, opts: &RunOpts) -> i32 {
         }
     }
 
+    // a check that silently discards most of its scenarios (or never reaches the property's
+    // branch) has lost its coverage: that is a harness error, never a pass
+    if acc.invalid * 10 > acc.evaluations {
+        println!("HARNESS-ERROR: {} of {} scenarios were discarded as invalid (> 10 %): the workload no longer exercises the property", acc.invalid, acc.evaluations);
+        if exit == 0 {
+            exit = 2;
+        }
+    }
+    if acc.evaluations >= 1000 && acc.nontrivial * 5 < acc.evaluations && acc.failures.is_empty() {
+        println!("HARNESS-ERROR: only {} of {} runs were non-trivial (< 20 %)", acc.nontrivial, acc.evaluations);
+        if exit == 0 {
+            exit = 2;
+        }
+    }
     // reach probes
     let mut missing = Vec::new();
     for p in def.required_probes {
